@@ -952,6 +952,46 @@ def run_unicode(ctx, cnfgen, quick):
         ctx.tally('raw bytes verdict', v)
 
 
+def run_unicode_write(ctx, cnfgen, quick):
+    """header fields and variable names outside the 8-bit alphabet of the model (implementation only): the written text
+    must read back as the formula and have the documented shape, through a StringIO and through a file"""
+    CNF = cnfgen.CNF
+    rng = ctx.rng
+    chars = [ch for ch in EXOTIC if not 0xd800 <= ord(ch) <= 0xdfff] + ['\n', '\r', '\r\n', ' ', 'c', 'p', '1', '0', 'x', '\u0085', '\u000c']
+    for i in range(60 if quick else 600):
+        def txt():
+            return ''.join(rng.choice(chars) for _ in range(rng.choice([1, 2, 4, 7])))
+        F = CNF(description=txt())
+        F.header[txt()] = txt()
+        for _ in range(rng.randint(1, 3)):
+            try:
+                F.new_variable(txt())
+            except ValueError:
+                pass
+        if F.number_of_variables() < 2:
+            F.update_variable_number(2)
+        F.add_clause([1, -2])
+        F.add_clause([])
+        n, clauses = F.number_of_variables(), [list(c) for c in F]
+        for to_file in (False, True):
+            descr = dict(header=[[str(k), str(v)] for k, v in F.header.items()], names=list(F.all_variable_labels()),
+                         n=n, clauses=clauses, via='file' if to_file else 'StringIO')
+            ctx.count('unicode-write', (i, to_file), True, sample=descr)
+            try:
+                text = impl_write(F, True, True, to_file)
+            except Exception as e:  # noqa
+                ctx.violation('counterexample', 'writing a formula with Unicode header / names to DIMACS raised %s' % type(e).__name__,
+                              dict(input=descr, implementation=[type(e).__name__, str(e)[:120]]), True, site='to_dimacs_file',
+                              cls='unicode-raises-' + type(e).__name__)
+                continue
+            got = [impl_read(CNF, text, False), impl_read(CNF, text, True)]
+            defect = shape_defect(text, n, clauses)
+            if got != [['ok', n, clauses]] * 2 or defect is not None:
+                ctx.disagreements_checked += 1
+                ctx.violation('counterexample', 'DIMACS round trip or shape fails with Unicode header / names: %s' % (defect or got),
+                              dict(input=descr, text=text[:400], read_back=got, shape=defect), True, site='to_dimacs_file', cls='unicode-roundtrip')
+
+
 # --------------------------------------------------------------------------
 # command line (thorough): cnfgen -q dimacs FILE
 # --------------------------------------------------------------------------
@@ -1016,7 +1056,9 @@ def run_cli_write(ctx, cnfgen, quick):
             ctx.note('registry %s not present' % m)
     if not fams:
         return
-    per_family = 2 if quick else 6
+    per_family = 2 if quick else 4
+    budget = 600000 if quick else 1500000      # clauses printed by the model over the whole stream
+    cap = 60000 if quick else 200000           # per instance (the char-list model needs ~0.5 kB per clause)
     tmp = tempfile.mkdtemp(prefix='c06cli-')
     jobs = []
     ndirs = 0
@@ -1061,14 +1103,21 @@ def run_cli_write(ctx, cnfgen, quick):
             if any(b[1] == argv for b in built):
                 continue
             built.append((len(F), argv, F, sub))
+        if any(b[0] <= cap for b in built):
+            built = [b for b in built if b[0] <= cap]
         built.sort(key=lambda b: -b[0])
         for size, argv, F, sub in built[:per_family]:
             jobs.append(dict(fam=fam['name'], argv=argv, F=F, sub=sub))
     # the variants, rotated over the jobs (all four for every job in the thorough tier)
     variants = ['default', 'of-dimacs-varnames', 'quiet-o-file.cnf', 'o-file-of-dimacs-varnames']
     runs = []
+    spent = 0
     for i, j in enumerate(jobs):
-        for v in (variants[i % 4:i % 4 + 1] if quick else variants):
+        for v in ([variants[i % 4]] if quick else [variants[i % 4], variants[(i + 2) % 4]]):
+            if len(j['F']) > cap or (spent + len(j['F']) > budget and len(j['F']) > 20000):
+                ctx.tally('cli-write skipped (size budget of the stream)', j['fam'])
+                continue
+            spent += len(j['F'])
             out = os.path.join(j['sub'], 'out-%d.cnf' % len(runs)) if v == 'quiet-o-file.cnf' else os.path.join(j['sub'], 'out-%d' % len(runs))
             opts = {'default': [], 'of-dimacs-varnames': ['-of', 'dimacs', '--varnames'], 'quiet-o-file.cnf': ['-q', '-o', out],
                     'o-file-of-dimacs-varnames': ['-o', out, '-of', 'dimacs', '--varnames']}[v]
@@ -1098,7 +1147,9 @@ def run_cli_write(ctx, cnfgen, quick):
             r['stdout'] = ''
         reqs.append(cmd('print_dimacs', opt(r['hdr']), opt(r['labels']), r['n'], r['clauses']))
         reqs.append(cmd('parse_dimacs', True, r['text'] if r['text'] is not None and latin1(r['text']) else ''))
-    reps = ctx.model.batch(reqs)
+    reps = []
+    for k in range(0, len(reqs), 40):          # 20 command lines per driver call
+        reps.extend(ctx.model.batch(reqs[k:k + 40]))
     reread = []
     for k, r in enumerate(runs):
         mp, mr = reps[2 * k], reps[2 * k + 1]
@@ -1190,11 +1241,14 @@ def run(ctx):
     run_formulas(ctx, cnfgen, quick)
     run_texts(ctx, cnfgen, quick)
     run_unicode(ctx, cnfgen, quick)
+    run_unicode_write(ctx, cnfgen, quick)
     if not quick:
         run_cli(ctx, cnfgen)
     run_cli_write(ctx, cnfgen, quick)
     ctx.assumptions.append('integers of more than 4300 digits: Python refuses to print them; theorems carry `printable`')
-    ctx.assumptions.append('characters above 255 are outside the model (robustness stream only)')
+    ctx.assumptions.append('characters above 255 are outside the model (robustness streams only: reader on exotic texts, writer on exotic '
+                           'header fields / names; lone surrogates in variable names are excluded -- writing them to a named file raises '
+                           'UnicodeEncodeError, header fields are protected by encode("ascii","replace"))')
     if TMPDIR:
         import shutil
         shutil.rmtree(TMPDIR, ignore_errors=True)
